@@ -155,6 +155,13 @@ def summarise(P):
                 S.sets[s.target.id] = S.sets[s.target.id] | frozenset(
                     _tag(_atoms_of_expr(s.value, S, P, f), na))
                 continue
+            if isinstance(s, ast.AugAssign) and isinstance(s.target, ast.Name) \
+                    and isinstance(s.op, ast.Sub) and s.target.id in S.sets:
+                # names are taken out of a tracked set in place: what is left is a part of
+                # each class it held (written 'R-' for a part of the reads)
+                S.sets[s.target.id] = frozenset(a + "-" for a in S.sets[s.target.id])
+                S.events.append(("minus", s, s.target.id))
+                continue
             if isinstance(s, ast.AugAssign) and dotted(s.target) == "self._seen_var_names":
                 S.events.append(("seen", s, frozenset(_atoms_of_expr(s.value, S, P, f))))
                 continue
